@@ -77,6 +77,58 @@ Proof.
   - vm_compute. reflexivity.
 Qed.
 
+(* ---- generalised branch bodies: expressions over the block input with binary functional ops (residual x + body(x)).
+   bexp := BIn | BApp layer e | BBin op e1 e2 ; gnode := GFixed | GBody (what export leaves) | GChoice. *)
+Theorem C03_g_hard_eq_export : forall (apply : layer -> tensor -> tensor) (bin : Z -> tensor -> tensor -> tensor),
+  (forall l x y, teq x y -> teq (apply l x) (apply l y)) ->
+  (forall op x y x' y', teq x x' -> teq y y' -> teq (bin op x y) (bin op x' y')) ->
+  forall g win th th' e x,
+  (forall b brs, In (GChoice b brs) g -> th b = one_hot (win b) (length brs)) ->
+  g_export win g = Some e ->
+  teq (g_eval apply bin qmix th g x) (g_eval apply bin qmix th' e x).
+Proof. exact g_hard_eq_export. Qed.
+
+Theorem C03_g_export_succeeds_iff : forall g win, g_export win g <> None <-> g_winners_ok win g.
+Proof. exact g_export_succeeds_iff. Qed.
+
+Theorem C03_g_export_tree : forall g win e, g_export win g = Some e ->
+  g_is_plain e = true /\ e = flat_map (g_expand win) g /\
+  (forall b brs, In (GChoice b brs) g -> exists br, nth_error brs (win b) = Some br /\ g_expand win (GChoice b brs) = [GBody br]).
+Proof. exact g_export_tree. Qed.
+
+Theorem C03_g_export_modules : forall g win e i, g_export win g = Some e ->
+  (In i (g_mods e) <->
+   In (GFixed (Mod i)) g \/ (exists b0, In (GBody b0) g /\ In (Mod i) (body_layers b0)) \/
+   exists b brs br, In (GChoice b brs) g /\ nth_error brs (win b) = Some br /\ In (Mod i) (body_layers br)).
+Proof. exact g_export_modules. Qed.
+
+Theorem C03_g_export_idempotent : forall g win win' e, g_export win g = Some e -> g_export win' e = Some e.
+Proof. exact g_export_idempotent. Qed.
+
+Theorem C03_g_export_deterministic : forall g win win',
+  (forall b brs, In (GChoice b brs) g -> win b = win' b) -> g_export win g = g_export win' g.
+Proof. exact g_export_deterministic. Qed.
+
+(* the leaf-layer view used by the name-based bookkeeping commutes with export; chain networks are the instance `embed` *)
+Theorem C03_g_flatten_export : forall g win, sn_export win (g_flatten g) = option_map g_flatten (g_export win g).
+Proof. exact g_flatten_export. Qed.
+
+Theorem C03_g_eval_embed : forall (T : Type) (apply : layer -> T -> T) (bin : Z -> T -> T -> T) (mix : list Q -> list T -> T) th nt x,
+  g_eval apply bin mix th (embed nt) x = sn_eval apply mix th nt x.
+Proof. exact @g_eval_embed. Qed.
+
+Theorem C03_g_flatten_embed : forall nt, g_flatten (embed nt) = nt.
+Proof. exact g_flatten_embed. Qed.
+
+(* a residual branch wins: x + 3*(2*x+1)... evaluated through the SuperNet and through the export *)
+Example C03_g_example :
+  let apply := fun (l : layer) (x : tensor) => match l with Mod i => fun k => inject_Z i * x k + 1 | Fn _ => fun k => x k + x k end in
+  let bin := fun (_ : Z) (x y : tensor) => fun k => x k + y k in
+  let g := [GFixed (Mod 2); GChoice 0 [BApp (Mod 3) BIn; BBin 0 (BApp (Mod 5) (BApp (Fn 0) (BApp (Mod 4) BIn))) BIn]; GFixed (Mod 7)] in
+  g_export (fun _ => 1%nat) g = Some [GFixed (Mod 2); GBody (BBin 0 (BApp (Mod 5) (BApp (Fn 0) (BApp (Mod 4) BIn))) BIn); GFixed (Mod 7)] /\
+  g_eval apply bin qmix (fun _ => one_hot 1 2) g (fun _ => 1) 0%nat == 939.
+Proof. cbn zeta. split; [reflexivity|vm_compute; reflexivity]. Qed.
+
 Print Assumptions C03_sn_hard_eq_export.
 Print Assumptions C03_sn_hard_eq_export_argmax.
 Print Assumptions C03_sn_export_succeeds_iff.
@@ -86,3 +138,12 @@ Print Assumptions C03_sn_export_idempotent.
 Print Assumptions C03_sn_export_deterministic.
 Print Assumptions C03_upstream_export_raises_refuted.
 Print Assumptions C03_upstream_export_wrong_branch_refuted.
+Print Assumptions C03_g_hard_eq_export.
+Print Assumptions C03_g_export_succeeds_iff.
+Print Assumptions C03_g_export_tree.
+Print Assumptions C03_g_export_modules.
+Print Assumptions C03_g_export_idempotent.
+Print Assumptions C03_g_export_deterministic.
+Print Assumptions C03_g_flatten_export.
+Print Assumptions C03_g_eval_embed.
+Print Assumptions C03_g_flatten_embed.
